@@ -28,6 +28,8 @@ CHECKS = {
    text="Pattern order and slot ranges after construction (hook H2) and the accepted call sequence must equal the depth-first leaf order; mixed-mode / empty-stub / unproducible-return setups must panic in the constructor.", ref="5 C14", note=A_NOTE + " The compile-time half (type-state) is sampled by the compile probe when present."),
  "C10": dict(engine="sched", technique="runtime monitoring: controlled scheduler over instrumented atomics/locks (hook H3), linearizability checking of recorded histories against Spec-M, 16-thread stress with conservation laws, TSan/Miri in the thorough tier",
    text="Every schedule of small cases (<= 4 calls, <= 3 threads) is enumerated depth-first, larger ones sampled (random, PCT); each history recorded at the client boundary must be linearizable w.r.t. Spec-M with matching final counters and verification text. Stress runs are judged by conservation (each chain position / ordered slot handed out exactly once).", ref="5 C10", note="Sequentially consistent interleavings at hook granularity only; Spec-M trusted as in engine A; scheduler in engines/harness/src/sched.rs."),
+ "C11": dict(engine="crashbox", technique="runtime monitoring by fault injection: every (crash point x instance topology x met/unmet) scenario runs in a child process whose exit status and panic reports are the observed events; plus caught-user-panic histories judged by Spec-M",
+   text="All expressible combinations of 19 crash points and 12 topologies (528 scenarios) are run in child processes: the child must exit 101 (not die by SIGABRT), report the injected panic first and report no second panic. Histories with user panics injected into matcher/answer/real/default callbacks and caught are then continued and judged by Spec-M (mock usable, verification reflects matched calls).", ref="5 C11", note="std builds only. Output of the default panic hook is parsed. The table is finite and fully run; histories of the second stage are sampled."),
  "C12": dict(engine="sched", technique="runtime monitoring: drop/clone registry on instrumented value types, conservation checks over controlled schedules (hook H3 lock sites) and 8-thread stress; Miri/TSan/valgrind in the thorough tier",
    text="For 13 return shapes (plain, Option, and Deep Result/tuple/Option/Poll mixes with owned leaves) the registry must show: a single-use value reaches at most one caller under every enumerated/sampled schedule, every other request is refused by a mock panic, delivered values are alive, repeatable values are clones of the intact stored original, every constructed value is dropped exactly once.", ref="5 C12", note="The compile-time half (builder refuses to quantify non-Clone values) is sampled by the compile probe when present, not monitored at run time. Registry in engines/harness/src/toks.rs is trusted."),
  "C13": dict(engine="sched", technique="runtime monitoring: every live lent reference re-validated (address, identity, checksum, distinctness, not dropped) after every step of random lending sequences; drop-order checks over the registry; controlled schedules at the value-chain insertion site, stress, Miri/TSan/valgrind in the thorough tier",
@@ -37,6 +39,7 @@ CHECKS = {
 }
 
 LEVEL = {p: "exploration" for p in CHECKS}
+LEVEL["C11"] = "fault_enumeration"
 
 def main():
     checks = []
@@ -70,6 +73,8 @@ def main():
         "engines": [
             {"name": "sched", "path": "engines/harness/src/bin/sched.rs", "serves_properties": ["C10", "C12", "C13", "C08", "C02"],
              "kind_free_text": "Engine C: token-passing controlled scheduler driven by hook H3, linearizability checker, real-thread stress, sanitizer stages"},
+            {"name": "crashbox", "path": "engines/harness/src/bin/crashbox.rs", "serves_properties": ["C11"],
+             "kind_free_text": "Engine D: crash-point x topology scenarios, each in an expendable child process"},
             {"name": "dynmock", "path": "engines/harness/src/bin/dynmock.rs", "serves_properties": ["C01","C02","C03","C04","C07","C08","C09","C14","C18"],
              "kind_free_text": "Engine A: random mocks interpreted through the real builder API, monitored against Spec-M after every operation"},
         ] + json.load(open(os.path.join(ROOT, "tools", "extra_engines.json"))) if os.path.exists(os.path.join(ROOT, "tools", "extra_engines.json")) else [],
